@@ -328,6 +328,12 @@ def _maybe_persist_memory(
                 arr.persist()
 
 
+class _LoadedOutputs(tuple):
+    """The outputs of a multi-output function as loaded from the store (not what the function returns)."""
+
+    __slots__ = ()
+
+
 def _dump_single_output(
     func: PipeFunc,
     output: Any,
@@ -335,9 +341,13 @@ def _dump_single_output(
 ) -> tuple[Any, ...]:
     if isinstance(func.output_name, tuple):
         new_output = []  # output in same order as func.output_name
-        for output_name in func.output_name:
-            assert func.output_picker is not None
-            _output = func.output_picker(output, output_name)
+        for i, output_name in enumerate(func.output_name):
+            if isinstance(output, _LoadedOutputs):
+                # Loaded from a previous run: already picked, in the order of `func.output_name`.
+                _output = output[i]
+            else:
+                assert func.output_picker is not None
+                _output = func.output_picker(output, output_name)
             new_output.append(_output)
             _single_dump_single_output(_output, output_name, store)
         return tuple(new_output)
@@ -783,7 +793,7 @@ def _execute_single(
     # Load the output if it exists
     output, exists = _load_from_store(func.output_name, store, return_output=True)
     if exists:
-        return output
+        return _LoadedOutputs(output) if isinstance(func.output_name, tuple) else output
 
     # Otherwise, run the function
     _load_arrays(kwargs)
